@@ -108,6 +108,8 @@ class Sched:
         return self.by_thread.get(threading.get_ident())
 
     def spawn(self, fn, name):
+        if self.aborting:
+            raise SimAbort
         t = Task(len(self.tasks), name)
         self.tasks.append(t)
 
@@ -297,6 +299,9 @@ class Sched:
                 t.thread.join(10)
                 if t.thread.is_alive():
                     alive.append(t.name)
+        # make this scheduler inert: finalizers of objects that outlive the run (collected
+        # later, possibly on a thread whose ident was reused) must never park anybody
+        self.by_thread = {}
         if alive:
             raise HarnessError('simulated threads survived shutdown: ' + ','.join(alive))
 
